@@ -315,6 +315,27 @@ class Expander:
                         if stored(later) & (elems | {t}) or isinstance(later, (ast.For, ast.While, ast.If, ast.With, ast.Try)):
                             break
         block(fn.body)
+        # function-wide: a pack assigned exactly once whose element names are stored at most once in the whole function (single
+        # assignment or parameter) can be substituted at every later call, also inside loops
+        stores, packs = {}, {}
+        for n in ast.walk(fn):
+            if isinstance(n, ast.Name) and isinstance(n.ctx, (ast.Store, ast.Del)):
+                stores[n.id] = stores.get(n.id, 0) + 1
+            if isinstance(n, ast.Assign) and len(n.targets) == 1 and isinstance(n.targets[0], ast.Name) and isinstance(n.value, (ast.Tuple, ast.List)):
+                packs.setdefault(n.targets[0].id, []).append(n.value)
+        for c in ast.walk(fn):
+            if not isinstance(c, ast.Call) or not any(isinstance(a, ast.Starred) for a in c.args):
+                continue
+            new_args = []
+            for a in c.args:
+                if isinstance(a, ast.Starred) and isinstance(a.value, ast.Name) and len(packs.get(a.value.id, [])) == 1 and stores.get(a.value.id) == 1:
+                    disp = packs[a.value.id][0]
+                    if all((isinstance(e, ast.Name) and stores.get(e.id, 0) <= 1) or isinstance(e, ast.Constant) for e in disp.elts) and getattr(disp, "lineno", 0) <= getattr(c, "lineno", 0):
+                        new_args += [clone(e) for e in disp.elts]
+                        changed = True
+                        continue
+                new_args.append(a)
+            c.args = new_args
         return changed
 
     @staticmethod
